@@ -1,29 +1,39 @@
 ------------------------------- MODULE Rng -------------------------------
 (***************************************************************************)
 (* Property C17, state-machine part: randomised routines are functions of  *)
-(* (operator, key) and never touch the process-wide NumPy generator.       *)
+(* (routine, operator, key) and never touch the process-wide NumPy         *)
+(* generator.                                                              *)
 (*                                                                         *)
 (* g    abstract identity of the global NumPy stream: <<origin, n>> where  *)
 (*      origin is "boot" or the last seed the USER installed and n the     *)
 (*      number of user draws since.  Two different values of g stand for   *)
 (*      two different values of np.random.get_state().                     *)
-(* out  out[<<routine, key>>] = the first output observed for that routine *)
-(*      and key (for the one operator of the run), or "none".              *)
+(* out  out[<<routine, operator, key>>] = the first output observed for    *)
+(*      that routine, operator and key, or "none".  An operator is a value *)
+(*      (matrix AND dtype): the float32, float64, complex64 and complex128 *)
+(*      versions of one matrix are four different operators, and nothing   *)
+(*      relates their outputs, nor those of two different keys.            *)
 (*                                                                         *)
 (* The user may draw from, or reseed, the global generator at any point    *)
-(* between cola calls.  The specification of a cola call is the property:  *)
-(*      g' = g  /\  (out = "none" \/ result = out).                        *)
+(* between cola calls, and cola calls on OTHER operators / with other keys  *)
+(* / of other routines (other dtypes, other probe shapes) may come in       *)
+(* between.  The specification of a cola call is the property:             *)
+(*      g' = g  /\  (out = "none" \/ result = out),                        *)
+(* i.e. the result is a function of (routine, operator, key) and of        *)
+(* nothing else: no earlier call, of whatever dtype / shape / key, may     *)
+(* leave anything behind that a later call can observe.                    *)
 (***************************************************************************)
 EXTENDS Integers, Sequences
 
 CONSTANTS Routines,   \* names of the randomised routines
+          Operators,  \* operators (matrix and dtype) a caller may pass
           Keys,       \* keys a caller may pass
           Seeds,      \* seeds the user may install with np.random.seed
           Digests     \* abstract output values
 
 VARIABLES g, out
 
-Slots == Routines \X Keys
+Slots == Routines \X Operators \X Keys
 GBoot == <<"boot", 0>>
 
 Init == /\ g = GBoot
@@ -37,17 +47,17 @@ UserSeed(s) == /\ g' = <<s, 0>>
 
 (* The property, as the specification of one call returning `res`. *)
 CallOkGlobal(gOld, gNew) == gNew = gOld
-CallOkDeterministic(o, r, k, res) == o[<<r, k>>] = "none" \/ res = o[<<r, k>>]
-Remember(o, r, k, res) == IF o[<<r, k>>] = "none" THEN [o EXCEPT ![<<r, k>>] = res] ELSE o
+CallOkDeterministic(o, r, op, k, res) == o[<<r, op, k>>] = "none" \/ res = o[<<r, op, k>>]
+Remember(o, r, op, k, res) == IF o[<<r, op, k>>] = "none" THEN [o EXCEPT ![<<r, op, k>>] = res] ELSE o
 
-Call(r, k, res) == /\ CallOkGlobal(g, g')
-                   /\ CallOkDeterministic(out, r, k, res)
-                   /\ g' = g
-                   /\ out' = Remember(out, r, k, res)
+Call(r, op, k, res) == /\ CallOkGlobal(g, g')
+                       /\ CallOkDeterministic(out, r, op, k, res)
+                       /\ g' = g
+                       /\ out' = Remember(out, r, op, k, res)
 
 Next == \/ UserDraw
         \/ \E s \in Seeds: UserSeed(s)
-        \/ \E r \in Routines, k \in Keys, res \in Digests: Call(r, k, res)
+        \/ \E r \in Routines, op \in Operators, k \in Keys, res \in Digests: Call(r, op, k, res)
 
 vars == <<g, out>>
 Spec == Init /\ [][Next]_vars
@@ -55,4 +65,20 @@ Spec == Init /\ [][Next]_vars
 (* Consequences used as sanity checks of the specification itself. *)
 OnlyUserMovesG == [][g' # g => (UserDraw \/ \E s \in Seeds: UserSeed(s))]_vars
 OutputsStable == [][\A s \in Slots: out[s] # "none" => out'[s] = out[s]]_vars
+
+(***************************************************************************)
+(* The same property over an explicit history h of events                  *)
+(*   [call |-> BOOLEAN, r, op, k, o]   (o: the value returned by a call),  *)
+(* as used by MC_Rng (history of the mechanism model) and by Trace_Rng     *)
+(* (recorded history of the real library):                                 *)
+(*   equal (routine, operator, key)  =>  equal output, WHEREVER the two    *)
+(*   calls occur in the history and whatever happened in between.          *)
+(* Nothing is required of two calls that differ in routine, operator or    *)
+(* key (their outputs may or may not coincide).                            *)
+(***************************************************************************)
+SameSlot(a, b) == a.r = b.r /\ a.op = b.op /\ a.k = b.k
+FunctionOfRoutineOperatorKey(h) ==
+    \A i, j \in 1..Len(h): (h[i].call /\ h[j].call /\ SameSlot(h[i], h[j])) => h[i].o = h[j].o
+(* the step form: appending event e to a history that satisfies the property keeps it *)
+ExtendsFunction(h, e) == e.call => \A j \in 1..Len(h): (h[j].call /\ SameSlot(h[j], e)) => h[j].o = e.o
 =============================================================================
